@@ -218,4 +218,25 @@ theorem parse_one_spec (spec : Bytes) (size : Nat) (hne : spec ≠ []) (hc : (0x
   simp only [parseLoop, trim_of_no_ws spec hw, hse, Bool.false_eq_true, if_false]
   cases parseSingleRange spec size <;> simp [parseLoop]
 
+theorem mem_dash_digits {A B : Bytes} (hA : IsDigits A) (hB : IsDigits B) {b : UInt8}
+    (hb : b ∈ A ++ 0x2D :: B) : isDigit b = true ∨ b = 0x2D := by
+  simp only [List.mem_append, List.mem_cons] at hb
+  rcases hb with h | h | h
+  · exact Or.inl (hA.2 b h)
+  · exact Or.inr h
+  · exact Or.inl (hB.2 b h)
+
+theorem dash_digits_no_comma {s : Bytes} (h : ∀ b ∈ s, isDigit b = true ∨ b = 0x2D) : (0x2C : UInt8) ∉ s := by
+  intro hm
+  rcases h _ hm with h | h
+  · exact absurd h (by decide)
+  · exact absurd h (by decide)
+
+theorem dash_digits_no_ws {s : Bytes} (h : ∀ b ∈ s, isDigit b = true ∨ b = 0x2D) : ∀ b ∈ s, isWs b = false := by
+  intro b hb
+  rcases h b hb with h | h
+  · exact digit_not_ws h
+  · rw [h]; decide
+
+
 end ActixModel.Range
